@@ -1258,7 +1258,7 @@ class Gen:
                 # release something we hold (it becomes stale)
                 idp = r.choice(self.held)
                 self.seq += 1
-                out.append(("v", (1, self.seq + 100, (15, (2, ((3, idp), (1, r.choice([1, 1, 100, 0]))))))))
+                out.append(("v", (1, self.seq + 100, (15, (2, ((3, idp), (1, r.choice([1, 1, 1, 100, 0, -1, -5]))))))))
                 self.stale.append(idp)
             else:
                 out.append(self.garbage())
